@@ -54,13 +54,15 @@ NUMERIC = set(O.COORD + O.ANGLES + O.ORIGIN_PX + O.ORIGIN_A + ["rlnClassNumber",
 def plan(tier):
     if tier == "quick":
         return dict(n_cases=306, shards=3, classes=CLASSES, timeout_s=600,
-                    min_evals={"export_df": 850, "star_export": 580, "import_df": 1150, "angles_to_relion": 850,
-                               "angles_from_relion": 1150, "shifts": 1100, "roundtrip_mem": 300, "roundtrip_file": 300,
-                               "converters": 580, "import_indep": 300, "import_halfset_single": 40})
+                    min_evals={"export_df": 850, "star_export": 580, "import_df": 1450, "angles_to_relion": 850,
+                               "angles_from_relion": 1450, "shifts": 1400, "roundtrip_mem": 300, "roundtrip_file": 300,
+                               "converters": 580, "import_indep": 600, "import_halfset_single": 40,
+                               "completes:RelionMotl(frame)": 30, "completes:relion2emmotl(frame)": 30})
     return dict(n_cases=4080, shards=16, classes=CLASSES, timeout_s=3000,
-                min_evals={"export_df": 10000, "star_export": 7000, "import_df": 14000, "angles_to_relion": 10000,
-                           "angles_from_relion": 14000, "shifts": 14000, "roundtrip_mem": 3900, "roundtrip_file": 3900,
-                           "converters": 7000, "import_indep": 3900, "import_halfset_single": 400})
+                min_evals={"export_df": 10000, "star_export": 7000, "import_df": 19000, "angles_to_relion": 10000,
+                           "angles_from_relion": 19000, "shifts": 18500, "roundtrip_mem": 3900, "roundtrip_file": 3900,
+                           "converters": 7000, "import_indep": 8000, "import_halfset_single": 400,
+                           "completes:RelionMotl(frame)": 400, "completes:relion2emmotl(frame)": 400})
 
 
 # ---- helpers shared by the call monitors ----------------------------------------------------------------
@@ -418,7 +420,40 @@ def _f(v, nd=6):
     return "%.*f" % (nd, v)
 
 
-def _gen_relion(rng, cls, version, big):
+def _typed(ps, pstype):
+    """the pixel size as the Python / numpy type under which the caller hands it over"""
+    return {"int": int, "np.int64": np.int64, "np.float32": np.float32}.get(pstype, float)(ps)
+
+
+def _index_plan(rng, n):
+    """how an in-memory RELION table is selected / reordered / relabelled before it is handed to cryoCAT:
+    (mode, positions kept in their new order, index labels or None = whatever .iloc leaves)"""
+    mode = ["none", "sorted", "filtered", "relabel", "gapped"][int(rng.choice([0, 1, 1, 2, 2, 3, 3, 4]))]
+    order, labels = np.arange(n), None
+    if mode == "sorted":
+        order = rng.permutation(n)
+    elif mode == "filtered":
+        keep = rng.random(n) < 0.6
+        keep[int(rng.integers(0, n))] = True
+        if n > 1 and keep.all():
+            keep[int(rng.integers(0, n))] = False
+        order = np.nonzero(keep)[0]
+    elif mode == "relabel":
+        labels = rng.permutation(n) * 2 + 5
+    elif mode == "gapped":
+        labels = np.arange(n) * 3 + 7
+    return {"mode": mode, "order": [int(j) for j in order], "labels": None if labels is None else [int(j) for j in labels]}
+
+
+def _apply_index(frame, plan):
+    f = frame.iloc[plan["order"]]
+    if plan["labels"] is not None:
+        f = f.copy()
+        f.index = plan["labels"]
+    return f
+
+
+def _gen_relion(rng, cls, version, big, n_override=None, path_only=False):
     """An independent RELION data set: ordered [(label, tokens)], truth arrays derived from the TOKENS."""
     n = int(rng.choice([2, 3, 4, 6, 9, 15, 30]))
     if cls == "n1":
@@ -427,7 +462,16 @@ def _gen_relion(rng, cls, version, big):
         n = int(rng.choice([120, 300])) if not big else 300
     elif cls == "halfset_single" and rng.random() < 0.3:
         n = 1
+    if n_override is not None:
+        n = n_override
     ps = _pixel(rng, cls)
+    pstype = "float"
+    if cls != "pixel_extremes" and rng.random() < 0.45:
+        pstype = ["int", "np.int64", "np.float32"][int(rng.choice([0, 1, 1, 2]))]
+        if pstype == "np.float32":
+            ps = float(np.float32(ps))
+        else:
+            ps = float(rng.choice([1, 2, 4, 8, 3, 13]))
     tomo_col, sub_col, origin, bname, angst = O.version_names(version)
     # identity
     k = int(rng.integers(1, 5))
@@ -496,6 +540,10 @@ def _gen_relion(rng, cls, version, big):
     if cls == "optics_only_pixel":
         src = "optics" if version >= 3.1 else "column"
     pstok = _f(ps) if rng.random() < 0.5 else repr(ps)
+    if pstype == "np.float32":
+        pstok = repr(ps)
+    elif pstype != "float":
+        pstok = "%d" % ps              # an integer-typed rlnPixelSize column / optics value once read
     cols = [(l, [_f(v) for v in coords[:, j]]) for j, l in enumerate(O.COORD)]
     cols += [(l, [atok(v) for v in ang[:, j]]) for j, l in enumerate(O.ANGLES)]
     drop_origin = cls == "random" and rng.random() < 0.15
@@ -530,13 +578,13 @@ def _gen_relion(rng, cls, version, big):
     rel = {lab: (O.to_float(t) if lab in NUMERIC else list(t)) for lab, t in cols}
     # loader
     discoverable = src in ("column", "optics") or version < 3.1
-    loaders = ["RelionMotl(path)", "RelionMotl(path,version,pixel_size)", "relion2emmotl", "relion2stopgap", "RelionMotl(frame)"]
-    loader = loaders[int(rng.choice([0, 1, 2, 3, 4, 4]))]
+    loaders = ["RelionMotl(path)", "RelionMotl(path,version,pixel_size)", "relion2emmotl", "relion2stopgap", "RelionMotl(frame)", "relion2emmotl(frame)"]
+    loader = loaders[int(rng.choice([0, 1, 2, 3] if path_only else [0, 1, 2, 3, 4, 4, 5, 5]))]
     if not discoverable and loader in ("RelionMotl(path)", "relion2stopgap"):
-        loader = "RelionMotl(path,version,pixel_size)"
-    if no_tomo_col and loader == "RelionMotl(frame)" and version < 4.0:
+        loader = ["RelionMotl(path,version,pixel_size)", "relion2emmotl"][int(rng.integers(0, 2))]
+    if no_tomo_col and "(frame)" in loader and version < 4.0:
         loader = "RelionMotl(path)" if discoverable else "RelionMotl(path,version,pixel_size)"
-    return {"n": n, "version": version, "ps": float(pstok), "src": src, "cols": cols, "optics": optics, "rel": rel, "loader": loader,
+    return {"n": n, "version": version, "ps": float(pstok), "pstype": pstype, "findex": _index_plan(rng, n), "src": src, "cols": cols, "optics": optics, "rel": rel, "loader": loader,
             "halfmode": halfmode, "block": bname, "angle_class": acls, "no_tomo_col": bool(no_tomo_col), "numbered": bool(rng.random() < 0.8),
             "sep": [" ", "\t", "  "][int(rng.integers(0, 3))], "width": int(rng.choice([0, 12, 13])), "opt": int(rng.integers(0, 4)),
             "has_origin": not drop_origin, "name0": [tname[0], sname[0]]}
@@ -578,13 +626,21 @@ def gen(ctx, i, cls):
     elif cls == "sg_star_input":
         conv, inp = "stopgap2relion", "sg_star"
     D = _gen_relion(rng, cls, version, big)
+    # a second, different file for the SAME path (same or different particle count, same or another version)
+    rng2 = ctx.rng(i, 2)
+    v2 = version if rng2.random() < 0.5 else VERSIONS[int(rng2.integers(0, 3))]
+    D2 = _gen_relion(rng2, cls, v2, big, n_override=D["n"] if rng2.random() < 0.5 else int(rng2.choice([1, 2, 3, 5, 8, 13])), path_only=True)
     case = {"i": i, "cls": cls, "T": T, "version": version, "ps": ps, "tf": tf, "sf": sf, "optics": optics, "conv": conv, "inp": inp,
-            "D": D, "export_style": ["ctor", "call"][int(rng.integers(0, 2))], "reimport": int(rng.integers(0, 3)),
+            "D": D, "D2": D2, "rt_index": _index_plan(rng2, n), "export_style": ["ctor", "call"][int(rng.integers(0, 2))], "reimport": int(rng.integers(0, 3)),
             "conv_opts": [int(v) for v in rng.integers(0, 2, 4)]}
     r0 = {k: float(T[k].iloc[0]) for k in ("x", "shift_x", "phi", "theta", "psi", "subtomo_id", "tomo_id")}
     case["summary"] = {"class": cls, "version": version, "n": n, "pixel_size": ps, "tomo_format": tf, "subtomo_format": sf, "optics": optics,
                        "converter": conv, "converter_input": inp, "row0": r0,
-                       "independent": {"n": D["n"], "pixel_size": D["ps"], "pixel_source": D["src"], "loader": D["loader"], "halfsets": D["halfmode"],
+                       "reimport_table": case["rt_index"]["mode"],
+                       "second_file": {"n": D2["n"], "version": D2["version"], "loader": D2["loader"], "pixel_size": D2["ps"], "pixel_type": D2["pstype"],
+                                       "pixel_source": D2["src"]},
+                       "independent": {"n": D["n"], "pixel_size": D["ps"], "pixel_type": D["pstype"], "frame_index": D["findex"]["mode"],
+                                       "pixel_source": D["src"], "loader": D["loader"], "halfsets": D["halfmode"],
                                        "angles": D["angle_class"], "names": D["name0"], "columns": [c[0] for c in D["cols"]][:6],
                                        "row0": [D["cols"][0][1][0], D["cols"][1][1][0]]}}
     return case
@@ -642,7 +698,7 @@ def _relation(ctx, monitor, w, **extra):
 def _run_converter(ctx, case, snap, names_ok):
     cm, T, v, ps = ctx.cm, case["T"], case["version"], case["ps"]
     i = case["i"]
-    out = os.path.join(ctx.scratch, "conv_%d.star" % i)
+    out = os.path.join(ctx.scratch, "converted.star")
     kw = dict(output_motl_path=out, tomo_format=case["tf"], subtomo_format=case["sf"], relion_version=v, pixel_size=ps, binning=1.0,
               write_optics=case["optics"])
     ref = snap
@@ -685,42 +741,55 @@ def _run_converter(ctx, case, snap, names_ok):
             os.remove(p)
 
 
-def _run_independent(ctx, case):
-    cm, D, i = ctx.cm, case["D"], case["i"]
+def _rel_take(rel, order):
+    return {lab: (v[order] if isinstance(v, np.ndarray) else [v[j] for j in order]) for lab, v in rel.items()}
+
+
+def _import_independent(ctx, D, path, tag):
+    """write D with the independent writer to `path` (whatever was there before is replaced) and import it"""
+    cm = ctx.cm
     v, ps = D["version"], D["ps"]
-    path = os.path.join(ctx.scratch, "indep_%d.star" % i)
     blocks = ([("data_optics", D["optics"])] if D["optics"] else []) + [(D["block"], D["cols"])]
     O.write_relion_star(path, blocks, numbered=D["numbered"], sep=D["sep"], width=D["width"], comment="written by the independent writer")
-    psarg = ps if D["src"] == "arg" or (D["opt"] & 1 and D["src"] != "none") else None
-    if D["src"] == "none":
-        psarg = None
+    tps = _typed(ps, D["pstype"])
+    psarg = tps if D["src"] == "arg" or (D["opt"] & 1 and D["src"] != "none") else None
     L = D["loader"]
-    df = None
+    df, rel = None, D["rel"]
     if L == "RelionMotl(path)":
         ok, m = ctx.call(L, cm.RelionMotl, path)
-        df = m.df if ok else None
     elif L == "RelionMotl(path,version,pixel_size)":
         ok, m = ctx.call(L, cm.RelionMotl, path, version=v if D["opt"] & 2 else None, pixel_size=psarg)
-        df = m.df if ok else None
     elif L == "relion2emmotl":
         ok, m = ctx.call(L, cm.relion2emmotl, path, relion_version=v if D["opt"] & 2 else None, pixel_size=psarg)
-        df = m.df if ok else None
     elif L == "relion2stopgap":
         ok, m = ctx.call(L, cm.relion2stopgap, path)
-        df = m.df if ok else None
     else:
-        frame = pd.DataFrame({lab: ([float(t) for t in toks] if lab in NUMERIC else _column_like_a_reader(toks)) for lab, toks in D["cols"]})
-        oframe = None
-        if D["optics"]:
-            oframe = pd.DataFrame({lab: [_maybe_num(t[0])] for lab, t in D["optics"]})
+        frame = pd.DataFrame({lab: ([float(t) for t in toks] if lab in NUMERIC and not (lab == "rlnPixelSize" and D["pstype"] in ("int", "np.int64"))
+                                    else _column_like_a_reader(toks)) for lab, toks in D["cols"]})
+        frame = _apply_index(frame, D["findex"])
+        rel = _rel_take(rel, D["findex"]["order"])
         need_v = D["no_tomo_col"] or bool(D["opt"] & 2) or not D["has_origin"]
-        ok, m = ctx.call(L, cm.RelionMotl, frame, version=v if need_v else None, pixel_size=psarg, optics_data=oframe)
-        df = m.df if ok else None
+        if L == "RelionMotl(frame)":
+            oframe = pd.DataFrame({lab: _column_like_a_reader(t) for lab, t in D["optics"]}) if D["optics"] else None
+            ok, m = ctx.call(L, cm.RelionMotl, frame, version=v if need_v else None, pixel_size=psarg, optics_data=oframe)
+        else:       # relion2emmotl has no optics argument: the pixel size of an optics block is handed over directly
+            ok, m = ctx.call(L, cm.relion2emmotl, frame, relion_version=v if need_v else None,
+                             pixel_size=tps if D["src"] == "optics" else psarg)
+    df = m.df if ok else None
     if df is not None:
         truth_ps = ps if D["src"] != "none" else None       # 3.0 without any pixel size: shifts are in px, nothing to divide
-        judge_import(ctx, "import_indep", df, D["rel"], v, truth_ps if v >= 3.1 else 1.0, extra={"loader": L, "pixel_source": D["src"]})
-    if os.path.exists(path):
-        os.remove(path)
+        judge_import(ctx, "import_indep", df, rel, v, truth_ps if v >= 3.1 else 1.0,
+                     extra={"loader": L, "pixel_source": D["src"], "pixel_type": D["pstype"], "file": tag,
+                            "frame_index": D["findex"]["mode"] if "(frame)" in L else None})
+
+
+def _run_independent(ctx, case):
+    # ONE path for every independent file of the shard: A is written and imported, then B replaces it (other
+    # particles, same or other count / version) and is imported through a path loader; the file of the previous
+    # case is still there when A is written.
+    path = os.path.join(ctx.scratch, "independent.star")
+    _import_independent(ctx, case["D"], path, "A")
+    _import_independent(ctx, case["D2"], path, "B (replaced A at the same path)")
 
 
 def run_case(ctx, case):
@@ -740,11 +809,13 @@ def run_case(ctx, case):
                            version=v, pixel_size=ps, binning=1.0) if ok else (False, None)
     if ok:
         kw = [dict(), dict(version=v, pixel_size=ps), dict(pixel_size=ps)][case["reimport"]]
-        ok2, back = ctx.call("RelionMotl(relion_df)", cm.RelionMotl, rdf.copy(), **kw)
+        plan = case["rt_index"]
+        ok2, back = ctx.call("RelionMotl(relion_df)", cm.RelionMotl, _apply_index(rdf, plan).copy(), **kw)
         if ok2:
-            _relation(ctx, "roundtrip_mem", O.check_roundtrip(snap, back.df, O.TOL_POS_MEM, O.TOL_ROT_MEM), version=v, reimport_args=sorted(kw))
+            _relation(ctx, "roundtrip_mem", O.check_roundtrip(O.snap_take(snap, plan["order"]), back.df, O.TOL_POS_MEM, O.TOL_ROT_MEM), version=v,
+                      reimport_args=sorted(kw), table=plan["mode"])
     # C. through a STAR file
-    path = os.path.join(ctx.scratch, "rt_%d.star" % i)
+    path = os.path.join(ctx.scratch, "roundtrip.star")
     ok, m = ctx.call("RelionMotl(df,version,pixel_size,binning)", cm.RelionMotl, T.copy(), version=v, pixel_size=ps, binning=1.0)
     if ok:
         ok, _ = ctx.call("write_out", m.write_out, path, write_optics=case["optics"], tomo_format=tf, subtomo_format=sf)
